@@ -36,6 +36,11 @@ CLAIMS = {
          "leaves the emitted text byte-identical; (C) the three texts depend on a field only through Exported()/JSONName() (rename of a tagged field; tagged F json:\"K\" vs untagged K). "
          "One residual class is a listed known finding (json tag names with characters encoding/json rejects). NOT decided: embedded-struct flattening conflicts, omitempty/string option effects on values.",
          "DESIGN.md section 4 (C09)", ""),
+ "C11": ("Decides the filter and back-link clauses. fetchPkgUnions/allNamedTypes on a package scope of 1..3 (4) named types with symbolic names, each an interface ({isA}, {isA;isB}, empty) or a struct/basic "
+         "type whose methods isA/isB are absent, value-receiver or pointer-receiver, with go/types' real method-set algorithm deciding Implements: an interface is a union iff some non-interface type has a value "
+         "method set implementing it; members are exactly those, each once, in name order. Struct.setImplements on 0..3 (4) unions (listing the struct or not, analysed or not, symbolic names) for every iteration "
+         "order of the unions map: Implements is exactly the analysed unions listing the struct, in name order. NOT decided: reachability of unions/structs through the type graph (C12's traversal), cross-package members.",
+         "DESIGN.md section 4 (C11)", ""),
 }
 
 NA = {
